@@ -12,12 +12,18 @@
 (*   NoStaleState  every group a computation valid under the CURRENT       *)
 (*                 selection reads is tagged with the current id           *)
 (*   Independence  a step of thread t changes only the context t points to *)
+(* Life cycle: a context also holds the sticky error code; core_clean ends *)
+(* its life (the caller's memory keeps whatever was in it), core_init on   *)
+(* the same memory starts a second life, which must be that of a fresh     *)
+(* context: SecondLifeIsFresh (an error raised and never fetched in the    *)
+(* first life, or a selection of the first life, must not be visible).     *)
 (***************************************************************************)
 EXTENDS Naturals, FiniteSets, TLC
 
 CONSTANTS Params,        \* parameter ids
           Kind,          \* Params -> {"plain", "endom", "pairf"}
-          Contexts, Threads, MaxSteps
+          Contexts, Threads, MaxSteps,
+          ResetCode      \* TRUE: core_init clears the sticky code (as the code does); FALSE: a control that must fail
 
 Groups == {"mont", "roots", "tower", "curve", "gentab", "map", "glv", "twist", "gt"}
 FieldGroups == {"mont", "roots", "tower"}
@@ -30,20 +36,21 @@ NoneId == "none"
 VARIABLES ctx,     \* Contexts -> [param, tag: Groups -> Params \cup {NoneId}]
           cur,     \* Threads -> Contexts
           pc,      \* Threads -> [st: "idle" | "curve" | "pair", id]: a selection in progress is multi-step
-          steps, lastActor, prevCtx
-vars == <<ctx, cur, pc, steps, lastActor, prevCtx>>
+          steps, lastActor, prevCtx,
+          lastAct  \* name of the last action (ghost)
+vars == <<ctx, cur, pc, steps, lastActor, prevCtx, lastAct>>
 
 Idle == [st |-> "idle", id |-> NoneId]
-Fresh == [param |-> NoneId, tag |-> [g \in Groups |-> NoneId]]
+Fresh == [param |-> NoneId, tag |-> [g \in Groups |-> NoneId], code |-> 0, live |-> TRUE]
 Init == /\ ctx = [c \in Contexts |-> Fresh]
         /\ cur \in {f \in [Threads -> Contexts] : \A s, t \in Threads : s # t => f[s] # f[t]}
         /\ pc = [t \in Threads |-> Idle]
-        /\ steps = 0 /\ lastActor = (CHOOSE t \in Threads : TRUE) /\ prevCtx = ctx
+        /\ steps = 0 /\ lastActor = (CHOOSE t \in Threads : TRUE) /\ prevCtx = ctx /\ lastAct = "start"
 
 Retag(c, gs, id) == [ctx EXCEPT ![c].tag = [g \in Groups |-> IF g \in gs THEN id ELSE ctx[c].tag[g]]]
 
 (* ep_param_set(id) is three separate steps, like the code: field, curve, (pairing data) *)
-SelField(t, id) == /\ pc[t].st = "idle" /\ steps < MaxSteps
+SelField(t, id) == /\ pc[t].st = "idle" /\ steps < MaxSteps /\ ctx[cur[t]].live /\ lastAct' = "sel"
                    /\ ctx' = [Retag(cur[t], FieldGroups, id) EXCEPT ![cur[t]].param = NoneId]
                    /\ pc' = [pc EXCEPT ![t] = [st |-> "curve", id |-> id]]
                    /\ steps' = steps + 1 /\ lastActor' = t /\ prevCtx' = ctx /\ UNCHANGED cur
@@ -53,21 +60,37 @@ SelCurve(t) == /\ pc[t].st = "curve"
                             THEN Retag(cur[t], CurveGroups(Kind[id]), id)
                             ELSE [Retag(cur[t], CurveGroups(Kind[id]), id) EXCEPT ![cur[t]].param = id]
                   /\ pc' = [pc EXCEPT ![t] = IF Kind[id] = "pairf" THEN [st |-> "pair", id |-> id] ELSE Idle]
-               /\ lastActor' = t /\ prevCtx' = ctx /\ UNCHANGED <<cur, steps>>
+               /\ lastActor' = t /\ prevCtx' = ctx /\ lastAct' = "sel" /\ UNCHANGED <<cur, steps>>
 SelPair(t) == /\ pc[t].st = "pair"
               /\ LET id == pc[t].id IN
                  ctx' = [Retag(cur[t], PairGroups, id) EXCEPT ![cur[t]].param = id]
               /\ pc' = [pc EXCEPT ![t] = Idle]
-              /\ lastActor' = t /\ prevCtx' = ctx /\ UNCHANGED <<cur, steps>>
+              /\ lastActor' = t /\ prevCtx' = ctx /\ lastAct' = "sel" /\ UNCHANGED <<cur, steps>>
 (* core_set: a thread points to another context nobody else is using *)
 Switch(t, c) == /\ pc[t].st = "idle" /\ steps < MaxSteps
                 /\ \A s \in Threads : cur[s] # c
                 /\ cur' = [cur EXCEPT ![t] = c]
-                /\ steps' = steps + 1 /\ lastActor' = t /\ prevCtx' = ctx /\ UNCHANGED <<ctx, pc>>
+                /\ steps' = steps + 1 /\ lastActor' = t /\ prevCtx' = ctx /\ lastAct' = "switch" /\ UNCHANGED <<ctx, pc>>
+(* an error raised outside any block is recorded in the context; err_get_code fetches and clears it *)
+Throw(t) == /\ pc[t].st = "idle" /\ steps < MaxSteps /\ ctx[cur[t]].live /\ ctx[cur[t]].code = 0
+            /\ ctx' = [ctx EXCEPT ![cur[t]].code = 1]
+            /\ steps' = steps + 1 /\ lastActor' = t /\ prevCtx' = ctx /\ lastAct' = "throw" /\ UNCHANGED <<cur, pc>>
+Fetch(t) == /\ pc[t].st = "idle" /\ steps < MaxSteps /\ ctx[cur[t]].live /\ ctx[cur[t]].code = 1
+            /\ ctx' = [ctx EXCEPT ![cur[t]].code = 0]
+            /\ steps' = steps + 1 /\ lastActor' = t /\ prevCtx' = ctx /\ lastAct' = "fetch" /\ UNCHANGED <<cur, pc>>
+(* core_clean: the life of the context ends; its memory keeps the code (and stale bytes that nothing may read) *)
+Clean(t) == /\ pc[t].st = "idle" /\ steps < MaxSteps /\ ctx[cur[t]].live
+            /\ ctx' = [ctx EXCEPT ![cur[t]] = [Fresh EXCEPT !.live = FALSE, !.code = ctx[cur[t]].code]]
+            /\ steps' = steps + 1 /\ lastActor' = t /\ prevCtx' = ctx /\ lastAct' = "clean" /\ UNCHANGED <<cur, pc>>
+(* core_init on the same memory: a second life *)
+ReInit(t) == /\ pc[t].st = "idle" /\ steps < MaxSteps /\ ~ctx[cur[t]].live
+             /\ ctx' = [ctx EXCEPT ![cur[t]] = IF ResetCode THEN Fresh ELSE [Fresh EXCEPT !.code = ctx[cur[t]].code]]
+             /\ steps' = steps + 1 /\ lastActor' = t /\ prevCtx' = ctx /\ lastAct' = "init" /\ UNCHANGED <<cur, pc>>
 
 Next == \E t \in Threads : \/ \E id \in Params : SelField(t, id)
                            \/ SelCurve(t) \/ SelPair(t)
                            \/ \E c \in Contexts : Switch(t, c)
+                           \/ Throw(t) \/ Fetch(t) \/ Clean(t) \/ ReInit(t)
 Spec == Init /\ [][Next]_vars
 
 (* a context with a completed selection: everything its computations read is current *)
@@ -77,4 +100,7 @@ NoStaleState ==
             \A g \in Reads(Kind[ctx[c].param]) : ctx[c].tag[g] = ctx[c].param
 (* the last step changed at most the context its actor points to *)
 Independence == \A c \in Contexts : c # cur[lastActor] => ctx[c] = prevCtx[c]
+(* the second life of a context is that of a fresh one; a dead context holds no selection *)
+SecondLifeIsFresh == lastAct = "init" => ctx[cur[lastActor]] = Fresh
+DeadHoldsNothing == \A c \in Contexts : ~ctx[c].live => ctx[c].param = NoneId
 =============================================================================
